@@ -16,6 +16,7 @@ META = {
     'assumptions': ['md4 / hmac_md5 are one-way (declassifiers)', 'gss_wrapex seals its input (C16)', 'TLS is established before both sinks (C02)'],
     'trusted_base': ['rustc nightly MIR construction', 'mirfacts exporter', 'rules/c17.py, dsl.py, sym.py, facts.py'],
 }
+META['explanation'] += ' (R17.6) each security-relevant Connector option is stored by its own builder method only; the requested mode is handed through write_connection_request / x224_connection_pdu unchanged (R17.2).'
 
 CONNECT = 'core::client::Connector::connect'
 CSSP = 'nla::cssp::cssp_connect'
